@@ -341,6 +341,32 @@ static struct {
 enum { FILE_STK=1, NODE_STK, DISK_PTR_STK, FREE_CHUNK_STK, SUBNODE_STK };
 /* Define stack control modes */
 enum { INIT_STK, CLEAR_STK, CLEAR_STK_TYPE, DEL_STK_ENTRY, GET_STK, SET_STK };
+#ifdef CGNS_VERIF
+/* verification hooks, see ADF_internals.h: each traced routine is renamed <name>_body by a #define active only
+   around its definition; a wrapper of the original name reports every call at its exit */
+void (*ADFI_verif_trace)( int, int, unsigned long, unsigned long, long long, const char *, int ) = NULL ;
+static long verif_counters[8] ;
+#define VERIF_TRACE( op, f, b, o, l, d, e ) do { if( ADFI_verif_trace ) ADFI_verif_trace( (op), (int)(f), \
+   (unsigned long)(b), (unsigned long)(o), (long long)(l), (d), (e) ) ; } while( 0 )
+#define VERIF_CHILD_WRAPPER( name, code ) void name( const int file_index, const struct DISK_POINTER *parent, \
+   const struct DISK_POINTER *child, int *error_return ) { name##_body( file_index, parent, child, error_return ) ; \
+   if( parent != NULL && child != NULL ) VERIF_TRACE( code, file_index, parent->block, parent->offset, \
+      child->block * DISK_BLOCK_SIZE + child->offset, NULL, *error_return ) ; }
+void ADFI_verif_cache_state( ADFI_VERIF_STATE *out )
+{
+int i ;
+out->rd_block = last_rd_block ; out->rd_file = last_rd_file ; out->rd_num = num_in_rd_block ;
+out->wr_block = last_wr_block ; out->wr_file = last_wr_file ; out->wr_flush = flush_wr_block ;
+out->rd_buf = rd_block_buffer ; out->wr_buf = wr_block_buffer ; out->last_link_ID = last_link_ID ;
+for( i=0; i<MAX_STACK; i++ ) {
+   out->stk[i].file_index = PRISTK[i].file_index ; out->stk[i].block = PRISTK[i].file_block ;
+   out->stk[i].offset = PRISTK[i].block_offset ; out->stk[i].type = PRISTK[i].stack_type ;
+   out->stk[i].priority = PRISTK[i].priority_level ;
+   out->stk[i].data = PRISTK[i].priority_level > 0 ? PRISTK[i].stack_data : NULL ;
+   }
+for( i=0; i<8; i++ ) out->counters[i] = verif_counters[i] ;
+}
+#endif
 /***********************************************************************
 	Defined macros
 ***********************************************************************/
@@ -639,6 +665,9 @@ ADF_FILE_NOT_OPENED
 SUB_NODE_TABLE_ENTRIES_BAD
 MEMORY_ALLOCATION_FAILED
 ***********************************************************************/
+#ifdef CGNS_VERIF
+#define ADFI_add_2_sub_node_table ADFI_add_2_sub_node_table_body
+#endif
 void    ADFI_add_2_sub_node_table(
 		const int file_index,
 		const struct DISK_POINTER *parent,
@@ -776,6 +805,10 @@ if( *error_return != NO_ERROR )
    return ;
 
 } /* end of ADFI_add_2_sub_node_table */
+#ifdef CGNS_VERIF
+#undef ADFI_add_2_sub_node_table
+VERIF_CHILD_WRAPPER( ADFI_add_2_sub_node_table, ADFI_VT_ADD_CHILD )
+#endif
 /* end of file ADFI_add_2_sub_node_table.c */
 /* file ADFI_adjust_disk_pointer.c */
 /***********************************************************************
@@ -2823,6 +2856,9 @@ NO_ERROR
 NULL_POINTER
 ADF_FILE_NOT_OPENED
 ***********************************************************************/
+#ifdef CGNS_VERIF
+#define ADFI_delete_from_sub_node_table ADFI_delete_from_sub_node_table_body
+#endif
 void    ADFI_delete_from_sub_node_table(
 		const int file_index,
 		const struct DISK_POINTER *parent,
@@ -2917,6 +2953,10 @@ ADFI_stack_control(file_index, 0, 0, CLEAR_STK_TYPE, DISK_PTR_STK,
 free(sub_node_table);
 
 } /* end of ADFI_delete_from_sub_node_table */
+#ifdef CGNS_VERIF
+#undef ADFI_delete_from_sub_node_table
+VERIF_CHILD_WRAPPER( ADFI_delete_from_sub_node_table, ADFI_VT_DEL_CHILD )
+#endif
 /* end of file ADFI_delete_from_sub_node_table.c */
 /* file ADFI_delete_sub_node_table.c */
 /***********************************************************************
@@ -4682,6 +4722,9 @@ NO_ERROR
 ADF_FILE_NOT_OPENED
 FWRITE_ERROR
 ***********************************************************************/
+#ifdef CGNS_VERIF
+#define ADFI_flush_buffers ADFI_flush_buffers_body
+#endif
 void    ADFI_flush_buffers(
 	        const unsigned int file_index,
 		int flush_mode,
@@ -4716,6 +4759,14 @@ if ( (int) file_index == last_rd_file && flush_mode == FLUSH_CLOSE ) {
 }
 
 } /* end of ADFI_flush_buffers */
+#ifdef CGNS_VERIF
+#undef ADFI_flush_buffers
+void ADFI_flush_buffers( const unsigned int file_index, int flush_mode, int *error_return )
+{
+ADFI_flush_buffers_body( file_index, flush_mode, error_return ) ;
+VERIF_TRACE( ADFI_VT_FLUSH, file_index, 0, 0, flush_mode, NULL, *error_return ) ;
+}
+#endif
 /* end of file ADFI_flush_buffers.c */
 /* file ADFI_fseek_file.c */
 /***********************************************************************
@@ -5474,6 +5525,9 @@ TOO_MANY_ADF_FILES_OPENED
 ADF_FILE_STATUS_NOT_RECOGNIZED
 FILE_OPEN_ERROR
 ***********************************************************************/
+#ifdef CGNS_VERIF
+#define ADFI_open_file ADFI_open_file_body
+#endif
 void    ADFI_open_file(
         const char *file,
         const char *status,
@@ -5614,6 +5668,15 @@ if (ADF_file[index].file_name != NULL) {
 }
 
 } /* end of ADFI_open_file */
+#ifdef CGNS_VERIF
+#undef ADFI_open_file
+void ADFI_open_file( const char *file, const char *status, unsigned int *file_index, int *error_return )
+{
+ADFI_open_file_body( file, status, file_index, error_return ) ;
+if( file_index != NULL && *error_return == NO_ERROR )
+   VERIF_TRACE( ADFI_VT_OPEN, *file_index, 0, 0, file ? (long long)strlen( file ) : 0, file, *error_return ) ;
+}
+#endif
 /* end of file ADFI_open_file.c */
 /* file ADFI_read_chunk_length.c */
 /***********************************************************************
@@ -6225,6 +6288,9 @@ NULL_STRING_POINTER
 ADF_FILE_NOT_OPENED
 FREAD_ERROR
 ***********************************************************************/
+#ifdef CGNS_VERIF
+#define ADFI_read_file ADFI_read_file_body
+#endif
 void    ADFI_read_file(
         const unsigned int file_index,
         const cgulong_t file_block,
@@ -6319,6 +6385,19 @@ if( num_in_rd_block < DISK_BLOCK_SIZE ||  /*- buffer is not full -*/
 memcpy( data, &rd_block_buffer[block_offset], (size_t)data_length );
 
 } /* end of ADFI_read_file */
+#ifdef CGNS_VERIF
+#undef ADFI_read_file
+void ADFI_read_file( const unsigned int file_index, const cgulong_t file_block, const cgulong_t block_offset,
+        const cglong_t data_length, char *data, int *error_return )
+{
+int how = data_length + block_offset > DISK_BLOCK_SIZE ? 3 : ( num_in_rd_block >= DISK_BLOCK_SIZE &&
+   (cglong_t) file_block == last_rd_block && (int) file_index == last_rd_file ) ? 0 :
+   ( (cglong_t) file_block == last_wr_block && (int) file_index == last_wr_file ) ? 1 : 2 ;
+ADFI_read_file_body( file_index, file_block, block_offset, data_length, data, error_return ) ;
+if( *error_return == NO_ERROR ) verif_counters[how]++ ;
+VERIF_TRACE( ADFI_VT_READ | how << 8, file_index, file_block, block_offset, data_length, data, *error_return ) ;
+}
+#endif
 /* end of file ADFI_read_file.c */
 /* file ADFI_read_file_header.c */
 /***********************************************************************
@@ -7222,6 +7301,9 @@ PRISTK_NOT_FOUND
    and read the data from the file. The stack is only meant to speed things
    up, not stop the process !!!
 ***********************************************************************/
+#ifdef CGNS_VERIF
+#define ADFI_stack_control ADFI_stack_control_body
+#endif
 int     ADFI_stack_control( const unsigned int file_index,
 		            const cgulong_t file_block,
 		            const unsigned int block_offset,
@@ -7372,6 +7454,25 @@ if( ((int)file_index >= maximum_files || ADF_file[file_index].in_use == 0) &&
    return NO_ERROR;
 
 } /* end of ADFI_stack_control */
+#ifdef CGNS_VERIF
+#undef ADFI_stack_control
+int ADFI_stack_control( const unsigned int file_index, const cgulong_t file_block, const unsigned int block_offset,
+        const int stack_mode, const int stack_type, const unsigned int data_length, char *stack_data )
+{
+int i, ret, live = 0, present = 0 ;
+for( i=0; i<MAX_STACK; i++ ) {
+   if( PRISTK[i].stack_type >= 0 ) live++ ;
+   if( PRISTK[i].file_index == (int) file_index && PRISTK[i].file_block == file_block &&
+       PRISTK[i].block_offset == block_offset ) present = 1 ;
+   }
+ret = ADFI_stack_control_body( file_index, file_block, block_offset, stack_mode, stack_type, data_length, stack_data ) ;
+if( stack_mode == GET_STK && ret == NO_ERROR ) verif_counters[6]++ ;
+if( stack_mode == SET_STK && ret == NO_ERROR && !present && live == MAX_STACK ) verif_counters[7]++ ;
+VERIF_TRACE( ADFI_VT_STACK | stack_mode << 8 | stack_type << 12, file_index, file_block, block_offset,
+             data_length, stack_data, ret ) ;
+return ret ;
+}
+#endif
 /* end of file ADFI_stack_control.c */
 /* file ADFI_stridx_c.c */
 /**********************************************************************
@@ -8008,6 +8109,9 @@ NULL_STRING_POINTER
 ADF_FILE_NOT_OPENED
 FWRITE_ERROR
 ***********************************************************************/
+#ifdef CGNS_VERIF
+#define ADFI_write_file ADFI_write_file_body
+#endif
 void	ADFI_write_file(
 		const unsigned int file_index,
 		const cgulong_t file_block,
@@ -8148,6 +8252,19 @@ memcpy( &wr_block_buffer[block_offset], data, (size_t)data_length );
 flush_wr_block = 1 ;
 
 } /* end of ADFI_write_file */
+#ifdef CGNS_VERIF
+#undef ADFI_write_file
+void ADFI_write_file( const unsigned int file_index, const cgulong_t file_block, const cgulong_t block_offset,
+        const cglong_t data_length, const char *data, int *error_return )
+{
+int dirty = flush_wr_block > 0, wf = last_wr_file ;
+cglong_t wb = last_wr_block ;
+ADFI_write_file_body( file_index, file_block, block_offset, data_length, data, error_return ) ;
+if( dirty && ( flush_wr_block <= 0 || wb != last_wr_block || wf != last_wr_file ) ) verif_counters[4]++ ;
+if( data_length + block_offset > DISK_BLOCK_SIZE ) verif_counters[5]++ ;
+VERIF_TRACE( ADFI_VT_WRITE, file_index, file_block, block_offset, data_length, data, *error_return ) ;
+}
+#endif
 /* end of file ADFI_write_file.c */
 /* file ADFI_write_file_header.c */
 /***********************************************************************
